@@ -31,9 +31,9 @@ Schema(p) ==
       [] op \in {"filter", "order"} -> Schema(p[3])
       [] op = "limit"  -> Schema(p[4])
       [] op = "topn"   -> Schema(p[5])
-      [] op = "join"   -> IF p[2][1] \in {"semi", "anti"} THEN Schema(p[4]) ELSE Schema(p[4]) \o Schema(p[5])
+      [] op = "join"   -> IF p[2][2] \in {"semi", "anti"} THEN Schema(p[4]) ELSE Schema(p[4]) \o Schema(p[5])
       [] op \in {"hashjoin", "mergejoin"} ->
-                          IF p[2][1] \in {"semi", "anti"} THEN Schema(p[6]) ELSE Schema(p[6]) \o Schema(p[7])
+                          IF p[2][2] \in {"semi", "anti"} THEN Schema(p[6]) ELSE Schema(p[6]) \o Schema(p[7])
       [] op = "agg"    -> Args(p[2])
       [] op \in {"hashagg", "sortagg"} -> Args(p[2]) \o Args(p[3])
       [] op = "window" -> Schema(p[3]) \o Args(p[2])
@@ -56,7 +56,10 @@ AggArgsResolvable(list, S) ==
         ELSE IF a[1] \in {"rowcount", "row_number"} THEN TRUE ELSE Resolvable(a, S)
 
 RECURSIVE NoForbidden(_)
-NoForbidden(n) == IsAtom(n) \/ (n[1] \notin Forbidden /\ \A i \in 2..Len(n) : NoForbidden(n[i]))
+NoForbidden(n) ==
+    \/ IsAtom(n)
+    \/ /\ n[1] \notin Forbidden \/ (n[1] = "in" /\ n[3][1] = "list")      \* `x IN (list)' is an expression
+       /\ \A i \in 2..Len(n) : NoForbidden(n[i])
 
 RECURSIVE WF(_)
 WF(p) ==
@@ -68,16 +71,18 @@ WF(p) ==
       [] op = "order"  -> WF(p[3]) /\ Resolvable(p[2], Schema(p[3]))
       [] op = "limit"  -> WF(p[4])
       [] op = "topn"   -> WF(p[5]) /\ Resolvable(p[4], Schema(p[5]))
-      [] op = "join"   -> /\ WF(p[4]) /\ WF(p[5]) /\ p[2][1] \in JoinTypes
+      [] op = "join"   -> /\ WF(p[4]) /\ WF(p[5]) /\ p[2][2] \in JoinTypes
                           /\ Resolvable(p[3], Schema(p[4]) \o Schema(p[5]))
       [] op \in {"hashjoin", "mergejoin"} ->
-                          /\ WF(p[6]) /\ WF(p[7]) /\ p[2][1] \in JoinTypes
+                          /\ WF(p[6]) /\ WF(p[7]) /\ p[2][2] \in JoinTypes
                           /\ Len(p[4]) = Len(p[5])                          \* as many left as right keys
                           /\ Resolvable(p[4], Schema(p[6])) /\ Resolvable(p[5], Schema(p[7]))
                           \* the executors assert a `true' residual (hash semi/anti join may carry one)
-                          /\ (p[3] = <<"@c", "true">> \/ (op = "hashjoin" /\ p[2][1] \in {"semi", "anti"}
-                                                          /\ Resolvable(p[3], Schema(p[6]) \o Schema(p[7])))
-                          /\ (op = "mergejoin" => p[2][1] \notin {"semi", "anti"})
+                          /\ \/ p[3] = <<"@c", "true">>
+                             \/ /\ op = "hashjoin"
+                                /\ p[2][2] \in {"semi", "anti"}
+                                /\ Resolvable(p[3], Schema(p[6]) \o Schema(p[7]))
+                          /\ (op = "mergejoin" => p[2][2] \notin {"semi", "anti"})
       [] op = "agg"    -> WF(p[3]) /\ AggArgsResolvable(p[2], Schema(p[3]))
       [] op \in {"hashagg", "sortagg"} ->
                           WF(p[4]) /\ Resolvable(p[2], Schema(p[4])) /\ AggArgsResolvable(p[3], Schema(p[4]))
